@@ -232,6 +232,9 @@ class Tr:
     def stmt(self, s, ind):
         if isinstance(s, ast.Expr) and isinstance(s.value, ast.Constant) and isinstance(s.value.value, str):
             return []                           # docstring
+        for head, lines in getattr(self, 'stmt_map', {}).items():
+            if self.src(s).startswith(head):
+                return [ind + l for l in lines]
         if isinstance(s, ast.Assign):
             if len(s.targets) != 1:
                 raise Unsupported('multiple targets')
@@ -269,6 +272,8 @@ class Tr:
                 return ['%sthrow PyErr.valueError' % ind]
             if name == 'IndexError':
                 return ['%sthrow PyErr.indexError' % ind]
+            if name == 'InvalidStackError':
+                return ['%sthrow PyErr.invalidStack' % ind]
             raise Unsupported('raise ' + self.src(s))
         if isinstance(s, ast.If) and isinstance(s.test, ast.Compare) and len(s.test.ops) == 1 \
                 and isinstance(s.test.ops[0], ast.Is) and isinstance(s.test.left, ast.Name) \
@@ -357,6 +362,7 @@ inductive PyErr
   | valueError
   | indexError
   | assertionError
+  | invalidStack
 deriving DecidableEq, Repr
 
 /-- a classification as the pair of strings the Python code unpacks it into -/
@@ -475,6 +481,29 @@ def translate():
              'the index block of `NiftiWrapper.get_meta` (dcmmeta.py): bounds checks, index arithmetic per '
              'classification, final `return default` (= none).  `index` holds naturals (a negative '
              'component is out of bounds in the code and is sent as an out-of-range natural)')
+    # ---- get_shape: the count checks (from `n_files = …` to `num_time_points = …`)
+    f = find_func(ds, 'DicomStack', 'get_shape')
+    blk = None
+    if f is not None:
+        names = [s.targets[0].id if isinstance(s, ast.Assign) and isinstance(s.targets[0], ast.Name) else None for s in f.body]
+        if 'n_files' in names and 'num_time_points' in names and names.index('n_files') < names.index('num_time_points'):
+            blk = f.body[names.index('n_files'):names.index('num_time_points') + 1]
+    if blk is None:
+        missing.append('get_shape_counts: statements n_files … num_time_points not found')
+    else:
+        tr = Tr({'len(self._files_info)': 'n_files_', 'len(self._slice_pos_vals)': 'n_slice_pos',
+                 'len(self._vector_vals)': 'n_vector_vals'}, {})
+        tr.skip_assign = {'slice_positions'}
+        # the spacing test works on numpy arrays: its outcome is the parameter spacing_ok
+        tr.stmt_map = {'if files_per_vol > 1:': ['if (decide (files_per_vol > 1)) then', '  if (!spacing_ok) then',
+                                                 '    throw PyErr.invalidStack']}
+        ret = ast.parse('return (files_per_vol, num_time_points, num_vec_comps)').body[0]
+        tr.ret = lambda n: '(files_per_vol, num_time_points, num_vec_comps)'
+        emit('get_shape_counts', '(n_files_ n_slice_pos n_vector_vals : Nat) (spacing_ok : Bool) : Except PyErr (Nat × Nat × Nat)',
+             blk + [ret], tr,
+             'the count checks of `DicomStack.get_shape` (dcmstack.py), from `n_files = …` to `num_time_points = …`, '
+             'translated statement by statement; the numpy spacing test is the parameter `spacing_ok`; the appended '
+             'return gives (slices per volume, time points, vector components)')
     # ---- get_data: file_idx expressions
     f = find_func(ds, 'DicomStack', 'get_data')
     exprs = []
